@@ -336,7 +336,13 @@ class Exec:
             for n, g in fns.items():
                 if not g.args and g.sig.startswith('const ') and (n == text or n.endswith('::' + text) or text.endswith('::' + n)):
                     return self.call_mir(g, [])
-        if text.startswith('ZeroSized') or text == '{zero-sized}': return UNIT
+        if text.startswith('ZeroSized: {closure@'):
+            return Closure(text[len('ZeroSized: '):], [], [])
+        if text.startswith('ZeroSized: '):
+            inner = text[len('ZeroSized: '):]
+            if inner.startswith('fn(') or '{' in inner: return FnItem(inner)
+            return FnItem(inner)
+        if text == '{zero-sized}': return UNIT
         return FnItem(text)
 
     # ---- rvalues
@@ -647,7 +653,7 @@ class Exec:
         return r
 
     def _resolve(self, fr, callee):
-        from . import models
+        from . import models, models_coll
         prog = self.prog
         crate = fr.fn.crate
         f = prog.crates[crate].get(callee)
